@@ -109,13 +109,22 @@ PRELUDE = vlog.PRELUDE + 'From V Require Import Gen.Seq Model.Inline Model.SimKe
 
 
 def check(tag, cases, with_trace=False):
-    """cases: list of dict(label, hw, top, text [, steps, trace]).  One coqc call."""
+    """cases: list of dict(label, hw, top, text [, steps, trace]).  One coqc call.  Per case:
+       ('ok', n_prims, n_regs)      match_flat = true AND the side conditions of C01_vsim_compose[_noclock] hold for the case's stimulus
+                                    (clock name resolves / no clock for register-free designs, observed nets are not rq nets, only inputs poked)
+                                    [with_trace: AND the kernel design built from the same terms reproduces the real simulator's trace]
+       ('guard', failing)           everything matches except prim_wf / reg_wf: the instance is in a class the theorems exclude by a documented
+                                    guard (e.g. SignExtend to the SAME width, whose `{0{..}}` is the C03 finding; multi-bit Mux2 select / Reg enable)
+       ('nomatch', failing conjuncts of match_flat, side-condition flag)   covered classes, but the text is not the modelled one
+       ('kernel-differs', kernel trace, impl trace) | ('notcovered', why) | ('elab', err) | ('parse', msg)"""
     items, body, res = [], [PRELUDE], {}
     for i, b in enumerate(cases):
         try:
             cv = Cover(b['hw'], b['top'])
         except NotCovered as ex:
             res[i] = ('notcovered', str(ex)); continue
+        except Exception as ex:                      # a design the dumper cannot describe is simply not covered by the theorem
+            res[i] = ('notcovered', 'dumper: %s: %s' % (type(ex).__name__, ex)); continue
         try:
             mods = vparse.parse(b['text'])
         except vparse.VParseError as ex:
@@ -126,48 +135,73 @@ def check(tag, cases, with_trace=False):
         body.append('Definition gs%d (f : flat) : list reginst :=\n   %s.' % (i, cv.gs))
         insl = '[' + '; '.join('NI f "%s"' % n for n in cv.ins) + ']'
         clk = 'NI f "%s"' % cv.clk
-        term = ('match elaborate dsg%d 200 %s with inl e => inl e | inr f => inr (match_flat (ps%d f) (gs%d f) (%s) %s f, '
-                'failing (diag (ps%d f) (gs%d f) (%s) %s f)%s) end')
+        steps = b.get('steps') or []
+        vsteps = vlog.coq_steps([([(vlog.vname(a), v) for a, v in ins], n) for ins, n in steps])
+        outs = '[' + '; '.join('"%s"' % n for n in cv.outs) + ']'
+        # side conditions of the end-to-end theorem, decided for this stimulus
+        side = ('(match net_index (f_nets f) "%s" 0 with Some c => Nat.eqb c (%s) | None => match gs%d f with nil => true | _ => false end end) '
+                '&& forallb (fun o => negb (mem_nat o (map (fun g => fst (rg_rq g)) (gs%d f)))) (resolve_names f %s) '
+                '&& forallb (fun st => forallb (fun p => mem_nat (net_of f (fst p)) %s) (fst st)) %s' % (cv.clk, clk, i, i, outs, insl, vsteps))
         extra = ''
         if with_trace:
             # the kernel design built from the SAME terms, run on the stimulus: its observable trace must be the real simulator's
-            steps = '[' + '; '.join('([%s], %d%%nat)' % ('; '.join('(NI f "%s", %s)' % (vlog.vname(n), zlit(v)) for n, v in ins), k)
-                                    for ins, k in b['steps']) + ']'
-            obs = '[' + '; '.join('NI f "%s"' % n for n in cv.outs) + ']'
-            extra = (', map (fun s => map (rd (vals s)) %s) (run_states (comp_design f (ps%d f) (gs%d f)) '
-                     '(init_poked (comp_design f (ps%d f) (gs%d f)) (reg_st0 (gs%d f)) (reg_pokes (gs%d f))) %s)' % (obs, i, i, i, i, i, i, steps))
-        items.append(('m%d' % i, term % (i, vparse.cq_str(mods[0][1]), i, i, clk, insl, i, i, clk, insl, extra)))
+            extra = (', map (fun s => map (rd (vals s)) (resolve_names f %s)) (run_states (comp_design f (ps%d f) (gs%d f)) '
+                     '(init_poked (comp_design f (ps%d f) (gs%d f)) (reg_st0 (gs%d f)) (reg_pokes (gs%d f))) (map (kstep f) %s))' % (outs, i, i, i, i, i, i, vsteps))
+        term = ('match elaborate dsg%d 200 %s with inl e => inl e | inr f => inr (match_flat (ps%d f) (gs%d f) (%s) %s f, '
+                'failing (diag (ps%d f) (gs%d f) (%s) %s f), %s%s) end')
+        items.append(('m%d' % i, term % (i, vparse.cq_str(mods[0][1]), i, i, clk, insl, i, i, clk, insl, side, extra)))
     if items:
         out = common.coq_eval(tag, '\n'.join(body), items)
         for name, r in out.items():
             i = int(name[1:])
             if r[0] == 'inl': res[i] = ('elab', r[1]); continue
             v = r[1]
-            ok, failing = v[0], v[1]
+            ok, failing, side = v[0], v[1], v[2]
             cv = cases[i]['cover']
-            if not ok: res[i] = ('nomatch', failing)
-            elif with_trace and [list(x) for x in v[2]] != [list(x) for x in cases[i]['trace']]:
-                res[i] = ('kernel-differs', v[2], cases[i]['trace'])
+            if not ok and failing and set(failing) <= {7, 9}: res[i] = ('guard', failing)      # only prim_wf / reg_wf fail: a class the theorems exclude
+            elif not (ok and side): res[i] = ('nomatch', failing, side)
+            elif with_trace and [list(x) for x in v[3]] != [list(x) for x in cases[i]['trace']]:
+                res[i] = ('kernel-differs', v[3], cases[i]['trace'])
             else: res[i] = ('ok', len(cv.leaves), len(cv.regs))
     return [res[i] for i in range(len(cases))]
 
 
-def demo(seed=1, labels=('And2', 'Sub', 'Mux2', 'Add', 'Add_ci_co', 'SignExtend', 'ConcatMSBF', 'Constant', 'Reg', 'RegER', 'RegPair', 'Counter', 'DelayLine')):
+def make_cases(seed=1, tier='quick', n_rand=8, n_steps=6):
     import random, blocks
     rng = random.Random(seed)
     cases = []
-    for label, ins, outs, body in blocks.catalogue(rng, 'quick'):
-        if label not in labels: continue
-        hw, top = blocks.make_top('T_' + label, ins, outs, body)
-        text = vlog.emit(top)
-        steps = blocks.stimulus(rng, ins, 6)
-        trace = vlog.run_impl(hw, top, steps)
+    for label, ins, outs, body in blocks.catalogue(rng, tier):
+        if label in ('Div', 'Mod'): continue
+        try:
+            hw, top = blocks.make_top('T_' + label, ins, outs, body)
+            text = vlog.emit(top); steps = blocks.stimulus(rng, ins, n_steps); trace = vlog.run_impl(hw, top, steps)
+        except Exception as ex:
+            continue
         cases.append(dict(label=label, hw=hw, top=top, text=text, steps=steps, trace=trace))
-    res = check('C01_compose_demo', cases, with_trace=True)
+    for j in range(n_rand):
+        rr = random.Random(seed * 7919 + j)
+        try:
+            hw, top, ins, outs, info = blocks.random_top(rr, n_blocks=rr.randint(3, 10))
+            text = vlog.emit(top); steps = blocks.stimulus(rr, ins, n_steps); trace = vlog.run_impl(hw, top, steps)
+        except Exception as ex:
+            continue
+        cases.append(dict(label='rand%d:%s' % (j, '+'.join(info['blocks'])), hw=hw, top=top, text=text, steps=steps, trace=trace))
+    return cases
+
+
+def demo(seed=1, tier='quick', n_rand=8):
+    cases = make_cases(seed, tier, n_rand)
+    res = []
+    for k in range(0, len(cases), 25):
+        res += check('C01_compose_demo%d' % k, cases[k:k + 25], with_trace=True)
+    tally = {}
     for b, r in zip(cases, res):
-        print(b['label'], r)
+        tally[r[0]] = tally.get(r[0], 0) + 1
+        print('%-40s %s' % (b['label'][:40], r if r[0] != 'kernel-differs' else r[0]))
+    print(tally)
     return cases, res
 
 
 if __name__ == '__main__':
-    demo()
+    import sys
+    demo(int(sys.argv[1]) if len(sys.argv) > 1 else 1, n_rand=int(sys.argv[2]) if len(sys.argv) > 2 else 8)
